@@ -54,6 +54,8 @@ type vRegWorld struct {
 	dies    []int
 	conns   []*websocket.Conn // raw connections that completed the websocket handshake
 	ckeys   []int
+	lastKs   []int               // the allow-list the server was given last ...
+	lastPubs []ed25519.PublicKey // ... and the very slice it was given
 }
 
 func (w *vRegWorld) pubs(ks []int) []ed25519.PublicKey {
@@ -84,7 +86,21 @@ func (w *vRegWorld) update(ks []int) error {
 	w.mu.Lock()
 	w.updates = append(w.updates, ks)
 	w.mu.Unlock()
-	return w.ls.S.UpdatePublicKeys(w.pubs(ks)...)
+	pubs := w.pubs(ks)
+	// an application which takes keys off the list it keeps passes a part of the slice it passed before (list[1:], list[:n-1]):
+	// when the new list is a contiguous part of the previous one, that very part is what the server gets
+	for i := 0; len(ks) > 0 && i+len(ks) <= len(w.lastKs); i++ {
+		same := true
+		for j := range ks {
+			same = same && w.lastKs[i+j] == ks[j]
+		}
+		if same {
+			pubs = w.lastPubs[i : i+len(ks)]
+			break
+		}
+	}
+	w.lastKs, w.lastPubs = ks, pubs
+	return w.ls.S.UpdatePublicKeys(pubs...)
 }
 
 // vRefusedUpdate marks, in the list of updates, an UpdatePublicKeys call that the server must
@@ -286,7 +302,8 @@ func vRegScenario(r *vRand, name string, allow []int, body func(w *vRegWorld) st
 	skey := vGenKey(r)
 	verifrt.ResetNames()
 	verifrt.Start(nil)
-	w.ls = vStartLibServer(skey, w.pubs(allow), true)
+	w.lastKs, w.lastPubs = allow, w.pubs(allow)
+	w.ls = vStartLibServer(skey, w.lastPubs, true)
 	fail := body(w)
 	time.Sleep(60 * time.Millisecond)
 	// views at quiescence
@@ -547,6 +564,7 @@ func TestVerifC11Child(t *testing.T) {
 			{"rotate-larger", []int{1, 2, 3}, []int{0}, []int{1}, 3},
 			{"rotate-all-equal-length", []int{2, 3}, []int{0, 1}, nil, 2},
 			{"revoke-everything", []int{}, []int{0, 1}, nil, -1}, // the empty allow-list: nobody is accepted any more
+			{"revoke-the-first-of-the-list", []int{1}, []int{0}, []int{1}, -1}, // passed as list[1:] of the list the server was created with
 		} {
 			rc := rc
 			to := append([]int(nil), rc.to...)
